@@ -13,6 +13,7 @@ import (
 	"net"
 	"strings"
 	"sync"
+	"sync/atomic"
 	"testing"
 	"testing/cryptotest"
 	"testing/synctest"
@@ -236,9 +237,17 @@ func (w *World) NewDialer(kind ClientKind) (Dialer, *simnet.SimConn, *quic.QUICS
 	return ut, ep, ut.QUICSpec
 }
 
+// Unpinned makes Run leave crypto/rand and math/rand alone: the pinning is process-global, so
+// bubbles that run at the same time (race passes over process-wide state) cannot use it.
+var Unpinned atomic.Bool
+
 // Run executes f inside a fresh bubble with crypto/rand and math/rand pinned to seed.
 func Run(t *testing.T, name string, seed uint64, f func(t *testing.T)) bool {
 	return t.Run(name, func(t *testing.T) {
+		if Unpinned.Load() {
+			synctest.Test(t, f)
+			return
+		}
 		cryptotest.SetGlobalRandom(t, seed)
 		mrand.Seed(int64(seed)) //nolint:staticcheck // effective with GODEBUG=randseednop=0
 		synctest.Test(t, f)
